@@ -57,6 +57,12 @@ def scenarios(tier, pid):
     # two deliveries on different threads race for the last free slot of the per-signal channel
     sc("raw_two_threads_last_slot", ("C03", "C10"), "--raw", "--consumer", "p", "--others",
        "D10,D10,D10,D10,D10;D10", "--preempt", 1)
+    # a delivery of a signal while add_signal for it is still under way (from the instant the
+    # library is its disposition)
+    sc("raw_add_vs_waiting_delivery", ("C09", "C10"), "--raw", "--consumer", "p,p", "--others", "a12;W12",
+       "--watch", "10", "--preempt", 2)
+    sc("add_vs_waiting_delivery", ("C09", "C10"), "--consumer", "w,p", "--others", "a12;W12",
+       "--watch", "10", "--preempt", 2)
     sc("raw_duplicate_in_initial_set", ("C10", "C12"), "--raw", "--consumer", "p,p", "--others", "D10,D12",
        "--watch", "10,12,10", "--preempt", 1)
     sc("burst_same_signal", ("C10",), "--consumer", "p,p,p", "--others", "D10,D10,D10;D10",
@@ -196,9 +202,14 @@ def run_iterator(chk, tier):
     pid = chk.pid
     inv = INV_OF[pid]
     run_model(chk, tier)
-    for name, args in scenarios(tier, pid):
+    todo = [(n, a, False) for n, a in scenarios(tier, pid)]
+    # scenarios with the consumer thread only (deliveries nested on it), once more with the build
+    # that has release semantics
+    todo += [(n + "_rel", a, True) for n, a, _ in list(todo)
+             if "--others" not in a and not n.startswith("igen")]
+    for name, args, rel in todo:
         out = os.path.join(WORK, "it_%s_%s" % (pid, name))
-        stats, _, _ = harness("iterator", *args, "--out", out, "--max", 200000, timeout=3000)
+        stats, _, _ = harness("iterator", *args, "--out", out, "--max", 200000, timeout=3000, rel=rel)
         chk.evaluations += stats["schedules"]
         chk.distinct += stats["distinct_abs_traces"]
         if not stats["exhausted"]:
